@@ -15,8 +15,15 @@ import struct
 from .index import AnalysisError, ClassInfo, FUNC, unparse
 
 
+STEP_BUDGET = 400000
+
+
 class Unknown(Exception):
     pass
+
+
+class Budget(Unknown):
+    """the abstract run did not end within its statement budget"""
 
 
 class Raised(Exception):
@@ -111,6 +118,7 @@ _PURE_BUILTINS = {
     "sorted": sorted, "float": float, "round": round, "divmod": divmod,
     "all": all, "any": any, "dict": dict, "enumerate": enumerate,
     "zip": zip, "reversed": reversed, "ord": ord, "chr": chr,
+    "slice": slice, "bytearray": bytearray, "memoryview": memoryview,
 }
 _TYPES = {"str": str, "int": int, "tuple": tuple, "float": float,
           "bytes": bytes, "bool": bool, "list": list, "dict": dict,
@@ -173,6 +181,11 @@ _MATH["itertools.islice"] = lambda *a: list(_it.islice(*a))
 _MATH["itertools.zip_longest"] = lambda *a, **k: list(
     _it.zip_longest(*a, **k))
 _MATH["operator.itemgetter"] = _op.itemgetter
+# weak containers hold what the abstract run holds: plain ones will do
+_MATH["weakref.WeakKeyDictionary"] = dict
+_MATH["weakref.WeakValueDictionary"] = dict
+_MATH["weakref.WeakSet"] = set
+_MATH["collections.OrderedDict"] = dict
 # pure functions that only store or pass on their arguments: abstract
 # values may go through them
 _TRANSPARENT = {"enumerate", "zip", "reversed", "list", "tuple", "sorted",
@@ -191,6 +204,9 @@ class Evaluator:
         self.ctor_hooks = {}            # class qualname -> callable
         self.max_depth = max_depth
         self._depth = 0
+        # statements the evaluator (and the evaluators it spawns for
+        # callees) may still run: an abstract run must end
+        self._budget = [STEP_BUDGET]
         self._enum_cache = {}
 
     # ------------------------------------------------------------ enums
@@ -238,6 +254,7 @@ class Evaluator:
         sub = Evaluator(self.repo, owner.module, owner, self.funcs)
         sub.ctor_hooks = self.ctor_hooks
         sub._depth = self._depth + 1
+        sub._budget = self._budget
         if sub._depth > self.max_depth:
             raise Unknown("depth")
         env = {}
@@ -267,6 +284,8 @@ class Evaluator:
         except Unknown:
             raise
         if name in self.funcs:
+            if isinstance(self.funcs[name], (Obj, tuple)):
+                return self.funcs[name]     # a stand-in object / hook
             return ("pyfunc", self.funcs[name])
         r = self.repo.resolve_name(self.module, name)
         if r is not None:
@@ -283,6 +302,8 @@ class Evaluator:
                     return ("pyfunc", operator.index)
                 if what in _MATH:
                     return ("pyfunc", _MATH[what])
+                if what == "struct.Struct":
+                    return ("pyfunc", struct.Struct)
                 if what == "operator.attrgetter":
                     return ("pyfunc", lambda name: ("hook", lambda o, _n=name,
                             _s=self: _s.getattr(o, _n)))
@@ -295,6 +316,7 @@ class Evaluator:
                 if isinstance(what, ast.Assign):
                     sub = Evaluator(self.repo, what._module, None, self.funcs)
                     sub._depth = self._depth + 1
+                    sub._budget = self._budget
                     if sub._depth > self.max_depth:
                         raise Unknown("depth")
                     if len(what.targets) == 1 and isinstance(
@@ -371,6 +393,10 @@ class Evaluator:
                         return ("function", v[1], fn)
                     return ("method", base, fn, v[1]) + tuple(v[3:4])
                 return v
+            h = base.fields.get("__getattr__")
+            if isinstance(h, tuple) and h and h[0] == "hook" and \
+                    not attr.startswith("__"):
+                return h[1](attr)       # a stand-in that answers anything
             raise Unknown(f"field {attr}")
         if isinstance(base, tuple) and base and base[0] == "super":
             _, obj, cls = base
@@ -405,6 +431,8 @@ class Evaluator:
                 return ("pyfunc", struct.calcsize)
             if base[1] == "operator" and attr == "index":
                 return ("pyfunc", operator.index)
+            if base[1] == "struct" and attr == "Struct":
+                return ("pyfunc", struct.Struct)
             if base[1] == "struct" and attr in ("pack", "unpack",
                                                 "unpack_from", "pack_into"):
                 return ("pyfunc", getattr(struct, attr))
@@ -412,6 +440,11 @@ class Evaluator:
         for t, names in _PURE_METHODS.items():
             if type(base) is t and attr in names:
                 return ("pyfunc", getattr(base, attr))
+        if isinstance(base, struct.Struct) and attr in (
+                "pack", "unpack", "unpack_from", "pack_into", "size",
+                "format"):
+            v = getattr(base, attr)
+            return ("pyfunc", v) if callable(v) else v
         # immutable builtins: every public method is pure
         if type(base) in (str, bytes, tuple, int, float, frozenset) and \
                 not attr.startswith("_") and hasattr(base, attr):
@@ -424,7 +457,17 @@ class Evaluator:
         b = self.eval(node.right, env)
         return self.binop(type(node.op), a, b)
 
+    def _int_enum(self, x):
+        # a member of an IntEnum is an int in arithmetic
+        if isinstance(x, EnumVal) and x.cls.qualname != OPCODE_CLASS and \
+                isinstance(x.value, int) and any(
+                    isinstance(c, str) and c.split(".")[-1] == "IntEnum"
+                    for c in self.repo.mro(x.cls)):
+            return x.value
+        return x
+
     def binop(self, op, a, b, inplace=False):
+        a, b = self._int_enum(a), self._int_enum(b)
         if isinstance(a, (EnumVal, Flags)) or isinstance(b, (EnumVal, Flags)):
             return self._opcode_op(op, a, b)
         if isinstance(a, Obj) or isinstance(b, Obj):
@@ -692,7 +735,26 @@ class Evaluator:
         if isinstance(v, tuple) and v and isinstance(v[0], str) and v[0] in (
                 "function", "method", "pyfunc", "ext"):
             raise Unknown("await of a function value")
+        if isinstance(v, Obj) and "__await_result__" in v.fields:
+            return v.fields["__await_result__"]     # a stand-in future
         return v
+
+    def _e_Yield(self, node, env):
+        # a generator body run straight through (a context manager: enter
+        # and exit in sequence); the rule sees what is yielded
+        h = self.funcs.get("__yield__")
+        if h is None:
+            raise Unknown("yield")
+        return h(self.eval(node.value, env) if node.value is not None
+                 else None)
+
+    def _e_YieldFrom(self, node, env):
+        h = self.funcs.get("__yield__")
+        if h is None:
+            raise Unknown("yield from")
+        for x in self.eval(node.value, env):
+            h(x)
+        return None
 
     def _e_NamedExpr(self, node, env):
         v = self.eval(node.value, env)
@@ -765,6 +827,8 @@ class Evaluator:
                 raise Raised("ValueError: unpack")
             for t, v in zip(target.elts, vals):
                 self.bind(t, v, env)
+        elif isinstance(target, (ast.Attribute, ast.Subscript)):
+            self.assign(target, value, env)
         else:
             raise Unknown("bind target")
 
@@ -826,6 +890,12 @@ class Evaluator:
                     if m is None:
                         raise Raised("TypeError: bad operand for abs()")
                     return self.call(m, [])
+                if f[1] is len and len(args) == 1 and isinstance(
+                        args[0], Obj):
+                    m = self._dunder(args[0], "__len__")
+                    if m is None:
+                        raise Raised("TypeError: object has no len()")
+                    return self.call(m, [])
                 if f[1] is operator.index and len(args) == 1 and isinstance(
                         args[0], Obj) and args[0].ci is not None:
                     m = self._dunder(args[0], "__index__")
@@ -842,7 +912,10 @@ class Evaluator:
                 conv = [a.value if isinstance(a, EnumVal) and False else a
                         for a in args]
                 kwargs = {k: (self._as_callable(v) if isinstance(v, tuple)
-                              and v and v[0] in ("function", "method")
+                              and v and v[0] in ("function", "method",
+                                                 "hook", "opfunc")
+                              else v[1] if isinstance(v, tuple) and len(
+                                  v) == 2 and v[0] == "pyfunc"
                               else v) for k, v in kwargs.items()}
                 try:
                     return f[1](*conv, **kwargs)
@@ -858,6 +931,18 @@ class Evaluator:
             if f[0] == "isinstance":
                 return self._isinstance(args[0], args[1])
             if f[0] == "attrfn":
+                if len(args) >= 2 and isinstance(args[1], str) and (
+                        args[0] is None or type(args[0]) in (
+                            int, float, str, bytes, bool, tuple)) and \
+                        f[1] in ("getattr", "hasattr"):
+                    # a plain Python value has the attributes Python gives it
+                    if f[1] == "hasattr":
+                        return hasattr(args[0], args[1])
+                    if hasattr(args[0], args[1]):
+                        raise Unknown(f"getattr of builtin {args[1]}")
+                    if len(args) == 3:
+                        return args[2]
+                    raise Raised(f"AttributeError: {args[1]}")
                 if not args or not isinstance(args[0], Obj) or len(
                         args) < 2 or not isinstance(args[1], str):
                     raise Unknown(f"{f[1]} on a non-object")
@@ -937,6 +1022,7 @@ class Evaluator:
                             self.repo.enclosing_class(fn), self.funcs)
             sub.ctor_hooks = self.ctor_hooks
             sub._depth = self._depth
+            sub._budget = self._budget
             sub._self = args[0] if args and isinstance(args[0], Obj) \
                 else None
             env = dict(closure) if isinstance(closure, dict) else {}
@@ -970,7 +1056,26 @@ class Evaluator:
                 raise Raised("TypeError: unexpected keyword")
             if isinstance(fn, ast.Lambda):
                 return sub.eval(fn.body, env)
-            r = sub.run_block(fn.body, env)
+            if _is_generator(fn) and not (
+                    "__yield__" in self.funcs and _is_ctxmanager(fn)):
+                # a generator is run to its end, what it yields collected
+                # (its consumer then iterates over a list: the interleaving
+                # of producer and consumer is not modelled)
+                out = []
+                sub.funcs = dict(sub.funcs)
+                sub.funcs["__yield__"] = out.append
+                sub.run_block(fn.body, env)
+                return out
+            # `nonlocal x`: what the body binds is written back to the
+            # enclosing function's variables
+            nl = [n for st in fn.body if isinstance(st, ast.Nonlocal)
+                  for n in st.names] if isinstance(closure, dict) else []
+            try:
+                r = sub.run_block(fn.body, env)
+            finally:
+                for n in nl:
+                    if n in env:
+                        closure[n] = env[n]
             return r[1] if r is not None and r[0] == "return" else None
         finally:
             self._depth -= 1
@@ -991,14 +1096,19 @@ class Evaluator:
         return None
 
     def run_stmt(self, s, env):
+        self._budget[0] -= 1
+        if self._budget[0] < 0:
+            raise Budget(f"no end within {STEP_BUDGET} statements")
         if isinstance(s, ast.Expr):
             if isinstance(s.value, ast.Constant):
                 return None
-            if isinstance(s.value, ast.Call):
+            if isinstance(s.value, (ast.Call, ast.Yield)) or (
+                    isinstance(s.value, ast.Await) and isinstance(
+                        s.value.value, ast.Call)):
                 self.eval(s.value, env)
                 return None
             raise Unknown(f"expression statement {unparse(s)}")
-        if isinstance(s, ast.Pass):
+        if isinstance(s, (ast.Pass, ast.Nonlocal)):
             return None
         if isinstance(s, ast.Return):
             return ("return", self.eval(s.value, env) if s.value else None)
@@ -1064,6 +1174,23 @@ class Evaluator:
         if isinstance(s, FUNC):
             env[s.name] = ("function", self.cls, s, env)
             return None
+        if isinstance(s, ast.Try) and s.finalbody:
+            inner = ast.Try(body=s.body, handlers=s.handlers,
+                            orelse=s.orelse, finalbody=[])
+            ast.copy_location(inner, s)
+            pending = None
+            try:
+                r = self.run_stmt(inner, env) if s.handlers else \
+                    self.run_block(s.body, env)
+            except Raised as e:
+                pending = e
+                r = None
+            fr = self.run_block(s.finalbody, env)
+            if fr is not None:
+                return fr           # a return/break in finally wins
+            if pending is not None:
+                raise pending
+            return r
         if isinstance(s, ast.Try) and not s.finalbody:
             try:
                 r = self.run_block(s.body, env)
@@ -1083,6 +1210,30 @@ class Evaluator:
             if r is not None:
                 return r
             return self.run_block(s.orelse, env)
+        if isinstance(s, (ast.With, ast.AsyncWith)):
+            # context managers of repository classes: __enter__, the body,
+            # __exit__ on every way out (a true result would swallow the
+            # exception - not modelled)
+            mgrs = []
+            for it in s.items:
+                m = self.eval(it.context_expr, env)
+                if not (isinstance(m, Obj) and self._dunder(m, "__enter__")
+                        and self._dunder(m, "__exit__")):
+                    raise Unknown("with over an abstract value")
+                v = self.call(self.getattr(m, "__enter__"), [])
+                if it.optional_vars is not None:
+                    self.bind(it.optional_vars, v, env)
+                mgrs.append(m)
+            pending = None
+            try:
+                r = self.run_block(s.body, env)
+            except Raised as e:
+                pending, r = e, None
+            for m in reversed(mgrs):
+                self.call(self.getattr(m, "__exit__"), [None, None, None])
+            if pending is not None:
+                raise pending
+            return r
         if isinstance(s, ast.Match):
             subj = self.eval(s.subject, env)
             for c in s.cases:
@@ -1173,6 +1324,34 @@ class Evaluator:
                 raise Unknown("item store")
         else:
             raise Unknown("assignment target")
+
+
+def _is_generator(fn):
+    r = getattr(fn, "_sa_gen", None)
+    if r is None:
+        r = False
+        stack = list(fn.body)
+        while stack:
+            n = stack.pop()
+            if isinstance(n, FUNC + (ast.Lambda, ast.ClassDef)):
+                continue
+            if isinstance(n, (ast.Yield, ast.YieldFrom)):
+                r = True
+                break
+            for c in ast.iter_child_nodes(n):
+                if not isinstance(c, FUNC + (ast.Lambda, ast.ClassDef)):
+                    stack.append(c)
+        try:
+            fn._sa_gen = r
+        except AttributeError:
+            pass
+    return r
+
+
+def _is_ctxmanager(fn):
+    return any(unparse(d).split(".")[-1] in ("contextmanager",
+                                             "asynccontextmanager")
+               for d in getattr(fn, "decorator_list", []))
 
 
 def _load(t):
